@@ -1,5 +1,6 @@
 //! desmon — runtime monitors for the simulator (`des`), one sub-command per property / level.
 
+mod c04;
 mod c05;
 mod c06;
 mod c07;
@@ -22,6 +23,10 @@ fn main() {
     if args.cmd == "noop" {
         return;
     }
+    if args.cmd == "c04child" {
+        c04::child_main(&args);
+        return;
+    }
     if args.cmd == "replay" {
         let path = args.replay.clone().expect("replay needs --replay <file>");
         let text = std::fs::read_to_string(&path).expect("cannot read replay file");
@@ -30,6 +35,7 @@ fn main() {
         let sub = case.get("sub").and_then(Value::as_str).unwrap_or("").to_string();
         let rc = match sub.as_str() {
             "c02" | "c03rt" | "c10" | "c11" => rtprops::replay(case),
+            "c04" => c04::replay(case),
             "c05" => c05::replay(case),
             "c06" => c06::replay(case),
             "c07" => c07::replay(case),
@@ -52,6 +58,7 @@ fn main() {
         "c03rt" => rtprops::cmd_c03rt(&args),
         "c10" => rtprops::cmd_c10(&args),
         "c11" => rtprops::cmd_c11(&args),
+        "c04" => c04::cmd(&args),
         "c05" => c05::cmd(&args),
         "c06" => c06::cmd(&args),
         "c07" => c07::cmd(&args),
